@@ -648,6 +648,43 @@ impl Sys {
         Ok(())
     }
 
+    /// Dynamic direct handles of ANOTHER active archetype (its archetype byte, indices around both lengths, the versions
+    /// of both archetypes) presented to archetype A's archetype-level API: never accepted, never destroys anything.
+    pub fn probe_foreign_direct<A: Arch>(&mut self, w: usize) -> R {
+        let a = A::IDX;
+        let da = self.dump_of(w, a);
+        let d_before = self.dumps(w);
+        for b in self.sc.archs.clone() {
+            let b = b as usize;
+            if b == a {
+                continue;
+            }
+            let db = self.dump_of(w, b);
+            let versions: BTreeSet<u32> = [da.version, db.version, 1u32].into_iter().collect();
+            let top = da.len.max(db.len) + 1;
+            for v in versions {
+                for idx in 0..=top {
+                    let fany: EntityDirectAny = with_arch!(b, B => <B as Arch>::forge_direct(idx, version_value(v)).into());
+                    self.c.forged_probes += 1;
+                    let world = self.worlds[w].as_mut().unwrap();
+                    for r in lookups_opt::<A>(world, Hk::DAny(fany), true, true) {
+                        if r.world_level {
+                            continue; // dispatches on the archetype byte, i.e. to the other archetype, where the value may be legitimate
+                        }
+                        if matches!(r.look, Look::Accepted | Look::Reached(_)) {
+                            return vio!("C03", format!("foreign-archetype-direct-accepted:{}", r.class), "dynamic direct handle {:?} of {} (index {}, version {}) is accepted by {} of {} (version {}, len {})", fany, ARCH_NAMES[b], idx, v, r.path, A::NAME, da.version, da.len);
+                        }
+                    }
+                    let world = self.worlds[w].as_mut().unwrap();
+                    let gone = catch_unwind(AssertUnwindSafe(|| A::x_destroy(world, Hk::DAny(fany), Via::Arch))).map(|r| r.is_some()).unwrap_or(false);
+                    ensure!(!gone, "C03", "foreign-archetype-direct-destroyed-something", "{}::destroy({:?}) (a handle of {}) destroyed an entity", A::NAME, fany, ARCH_NAMES[b]);
+                }
+            }
+        }
+        ensure!(d_before == self.dumps(w), "C03", "foreign-direct-lookup-mutated-world", "presenting direct handles of other archetypes to {} changed the world", A::NAME);
+        Ok(())
+    }
+
     // -----------------------------------------------------------------------------------------
     // C14 on issued handles (the key-space sweeps are engine kx)
     // -----------------------------------------------------------------------------------------
@@ -741,6 +778,9 @@ impl Sys {
             for &t in &targets {
                 with_arch!(t as usize, A => self.probe_direct_universe::<A>(w))?;
             }
+        }
+        for &t in &targets {
+            with_arch!(t as usize, A => self.probe_foreign_direct::<A>(w))?;
         }
         // handles of the other worlds of this state (clone / original): foreign handles
         for w2 in 0..self.worlds.len() {
